@@ -439,6 +439,7 @@ type frame struct {
 	lets   map[string]cval
 	loopEff map[*loopInfo]*effects
 	loopPre map[*loopInfo]*State
+	loopEntry map[*loopInfo]map[*ssa.Phi]string // value of each header phi when the loop was entered ($entry_<name>)
 	callLog map[string][]callRec
 	preTerm string // the function's precondition (top frame)
 	prefix string // obligation label prefix of an inlined activation
